@@ -72,6 +72,7 @@ fn leaf_alphabet() -> Vec<Step> {
         Step::Collect,
         Step::Fail,
         Step::Noop,
+        Step::ForgeCallback { old_balance: Uint128::zero(), loan_amount: Uint128::zero() },
     ];
     for a in amount_classes() {
         v.push(Step::Repay(Repay::ExactPlus(Uint128::new(a))));
